@@ -1,5 +1,7 @@
 package drive
 
+import "fmt"
+
 // MonitorViolation is a property failing on what the implementation was
 // observed to do (independent of the model).
 type MonitorViolation struct {
@@ -19,6 +21,64 @@ func checkMonitors(sc *Scenario, impl *ImplRun) []MonitorViolation {
 	}
 	for _, a := range impl.Aliased {
 		out = append(out, MonitorViolation{Property: "C12", Sig: "shared-payload-object", What: a})
+	}
+	out = append(out, replyMonitor(sc, impl)...)
+	return out
+}
+
+// replyMonitor is C02's first sentence evaluated on what the clients saw: per
+// (caller, request id), after a final reply (RESULT without progress, or ERROR
+// of type CALL) nothing more arrives for that request unless the caller sent a
+// new CALL with that id in between; and no reply names a request the session
+// never issued.
+func replyMonitor(sc *Scenario, impl *ImplRun) []MonitorViolation {
+	type key struct {
+		sess int
+		req  string
+	}
+	final := map[key]int{} // op index of the final reply
+	issued := map[key]bool{}
+	var out []MonitorViolation
+	for i, r := range impl.Results {
+		op := r.Op
+		if op.Kind == "msg" && op.M != nil && op.M.Kind == "call" && r.Failed == "" {
+			k := key{op.Sess, fmt.Sprint(op.M.Req)}
+			issued[k] = true
+			delete(final, k)
+		}
+		for _, o := range r.Obs {
+			c := msgCode(o.Msg)
+			var req string
+			isFinal := false
+			switch c {
+			case 50: // RESULT [50, req, details, args, kw]
+				req = o.Msg.L[1].I
+				p, _ := o.Msg.L[2].Get("progress")
+				isFinal = !(p.T == 'b' && p.B)
+			case 8: // ERROR [8, ty, req, ...]
+				if o.Msg.L[1].I != "48" {
+					continue
+				}
+				req = o.Msg.L[2].I
+				isFinal = true
+			default:
+				continue
+			}
+			k := key{o.Recv, req}
+			if !issued[k] {
+				out = append(out, MonitorViolation{Property: "C02", Sig: "reply-for-request-not-issued", OpIndex: i,
+					What: fmt.Sprintf("session %d received %s for request %s it never issued", o.Recv, o.Msg.CanonString(), req)})
+				continue
+			}
+			if at, done := final[k]; done {
+				out = append(out, MonitorViolation{Property: "C02", Sig: "reply-after-final-reply", OpIndex: i,
+					What: fmt.Sprintf("session %d received %s for request %s after its final reply (op %d)", o.Recv, o.Msg.CanonString(), req, at)})
+				continue
+			}
+			if isFinal {
+				final[k] = i
+			}
+		}
 	}
 	return out
 }
